@@ -24,6 +24,8 @@ ASSUME \A n \in 1..4 : PermStateOK(n)
 ASSUME \A n \in 1..4 : PermStatusOK(n)
 \* the shape table, for the YAML generator of the check (single source: the specification)
 ASSUME \A s \in DOMAIN Shapes : PrintT(<<"SHAPE", s, Shapes[s].parent, Shapes[s].kind, Shapes[s].crit, Shapes[s].src>>)
+\* ... the sibling groups rendered as one iterator
+ASSUME \A s \in DOMAIN Iterated : PrintT(<<"ITER", s, Iterated[s]>>)
 \* ... and the templates with disabled roles the pruned ones are loaded from
 ASSUME \A s \in DOMAIN Sources :
          PrintT(<<"SOURCE", s, Sources[s].parent, Sources[s].kind, Sources[s].crit, Sources[s].en>>)
